@@ -1215,6 +1215,14 @@ def vec_run(cls_name, init, ops):
                 args = (slice(optz(a[1]), optz(a[2])), items(a[3]))
                 act = lambda: v.__setitem__(*args)
                 cand[args[0]] = list(args[1])
+            elif a[0] == 'dst':     # deletion of a slice with a step (extended slice)
+                args = (slice(optz(a[1]), optz(a[2]), optz(a[3])),)
+                act = lambda: v.__delitem__(*args)
+                del cand[args[0]]
+            elif a[0] == 'sst':     # assignment to a slice with a step: a plain list insists on as many items as positions
+                args = (slice(optz(a[1]), optz(a[2]), optz(a[3])), items(a[4]))
+                act = lambda: v.__setitem__(*args)
+                cand[args[0]] = list(args[1])
             elif a[0] == 'ext':
                 args = (items(a[1]),)
                 act = lambda: v.extend(*args)
